@@ -11,18 +11,18 @@ pub fn from_repr_inner(ast: &DeriveInput) -> syn::Result<TokenStream> {
     let vis = &ast.vis;
 
     let mut discriminant_type: Type = syn::parse("usize".parse().unwrap()).unwrap();
-    if let Some(type_path) = ast
-        .get_type_properties()?
-        .enum_repr
-        .and_then(|repr_ts| syn::parse2::<Type>(repr_ts).ok())
-    {
-        if let Type::Path(path) = type_path.clone() {
-            if let Some(seg) = path.path.segments.last() {
+    if let Some(repr_ts) = ast.get_type_properties()?.enum_repr {
+        // The repr may carry several hints (`C, u8` or `align(2), i16`); the integer type is one of them.
+        for hint in repr_ts {
+            if let proc_macro2::TokenTree::Ident(ident) = hint {
                 for t in &[
                     "u8", "u16", "u32", "u64", "usize", "i8", "i16", "i32", "i64", "isize",
                 ] {
-                    if seg.ident == t {
-                        discriminant_type = type_path;
+                    if ident == t {
+                        discriminant_type = Type::Path(syn::TypePath {
+                            qself: None,
+                            path: ident.clone().into(),
+                        });
                         break;
                     }
                 }
